@@ -1,4 +1,10 @@
 TEXT = {
+ "C15": {
+  "text": "Theorems about the fan-in protocol as a labelled transition system (spawn/send/dropTx/recv/close over an unbounded FIFO channel per the mpsc contract), for EVERY schedule, every number of workers and every partition list: every partial result occurs in the state exactly as often as initially (conservation), so when the collector's loop has ended the merged results are exactly the workers' results (nothing lost or duplicated); the loop can end only after the original sender was dropped and every worker has sent; from every reachable unfinished state some action is enabled (no deadlock / lost wake-up); every schedule has at most 3k+2 steps; the sequential/parallel decision; with Thm C14 (exact-cover partition) the collected map is the sequential map. The skeleton of the real function (clone per worker inside the loop, drop(tx) after the loop and before join, collector appends all) is re-read from mod.rs on every run. Runtime: forced worker counts 1..64 and seeded perturbation, compared with the sequential API under a watchdog.",
+  "design_ref": "DESIGN.md §7 C15",
+  "note": "PARTIAL at the runtime level: real thread scheduling, mpsc and thread::scope internals are exercised, not proved; the model cannot exhibit OS-level behaviour (spurious wake-ups, panics inside std).",
+  "technique": "Lean 4 theorems over a labelled transition system (induction over schedules, counting invariant, decreasing measure) + translator (protocol skeleton) + schedule-perturbing runtime exploration",
+ },
  "C01": {
   "text": "PARTIAL. Proved: Dhuhr is reported under all 15 policies (every scalar type); get_hour_angle is the stated angle reduced into (-180,180] and the transit fraction is reduced into [0,1) (R); the one-step correction leaves residual H*kappa with kappa=(D1/2+D2(m+m')/2-0.985647)/360, an exact identity, below 0.063 s under an explicit envelope (R); the RA-wrap handling yields the deltas of the unwrapped sequence (R; fails to check when the source sets prev_ra=0); JulianDay::new = civil day number + 1721424.5 - gmt/24 for every Gregorian date (R); tables and sidereal constants equal the frozen Meeus snapshot. Not proved: agreement of the truncated VSOP87 theory with the sky within 10 s - decided by the falsifier against an independent ephemeris on every run.",
   "design_ref": "DESIGN.md §3.3, §7 C01",
